@@ -37,7 +37,8 @@ pub fn spec_for(id: &str) -> Option<CheckSpec> {
   let mut s = spec_for_inner(id)?;
   let e: Option<Box<dyn Campaign>> = match id {
     "C01" | "C02" | "C05" | "C07" | "C19" => Some(Box::new(E2ECampaign::new(s.property, Source::Random, None, 300_000, 6_000_000))),
-    "C03" | "C04" => Some(Box::new(E2ECampaign::new(s.property, Source::Dist, Some(false), 300_000, 6_000_000))),
+    "C03" => Some(Box::new(E2ECampaign::new(s.property, Source::Dist, Some(false), 300_000, 6_000_000))),
+    "C04" => Some(Box::new(E2ECampaign::new(s.property, Source::Dist, None, 300_000, 6_000_000))),
     "C08" => Some(Box::new(E2ECampaign::new(s.property, Source::Dist, Some(true), 300_000, 6_000_000))),
     _ => None,
   };
@@ -60,7 +61,7 @@ fn spec_for_inner(id: &str) -> Option<CheckSpec> {
     "C01" => spec("C01", vec![Box::new(k("C01", Source::Random, Q, T).resets()), Box::new(k("C01", Source::Shipped, QS, TS).resets())], false),
     "C02" => spec("C02", vec![Box::new(k("C02", Source::Random, Q, T).resets()), Box::new(k("C02", Source::Shipped, QS, TS).resets())], true),
     "C03" => spec("C03", vec![Box::new(k("C03", Source::Dist, Q, T).absorbing(Some(false)).resets()), Box::new(k("C03", Source::Random, Q / 2, T / 2).absorbing(Some(false)).resets()), Box::new(k("C03", Source::Shipped, QS, TS).absorbing(Some(false)).resets())], true),
-    "C04" => spec("C04", vec![Box::new(k("C04", Source::Dist, Q, T).absorbing(Some(false)).resets()), Box::new(k("C04", Source::Random, Q / 2, T / 2).absorbing(Some(false)).resets()), Box::new(k("C04", Source::Shipped, QS, TS).absorbing(Some(false)).resets())], true),
+    "C04" => spec("C04", vec![Box::new(k("C04", Source::Dist, Q, T).resets()), Box::new(k("C04", Source::Random, Q / 2, T / 2).resets()), Box::new(k("C04", Source::Shipped, QS, TS).resets())], true),
     "C05" => spec("C05", vec![Box::new(k("C05", Source::Random, Q, T)), Box::new(k("C05", Source::Shipped, QS, TS)), Box::new(k("C05", Source::Empty, 50_000, 2_000_000))], true),
     "C06" => { let mut s = spec("C06", vec![Box::new(k("C06", Source::Random, Q, T).resets()), Box::new(k("C06", Source::Shipped, QS, TS).resets()), Box::new(b("C06", SourceB::Random, QB / 2, TB / 4).tablet().special())], false);
       s.assumptions.push("loop campaign: after every tablet-mode change (the reset the statement names) the real loop is compared with RefLoop continued with a brand-new mapper and no timer; a send a freshly started loop would not make, or a missing/different one, is reported as C06-loop-not-fresh".to_string()); s }
